@@ -17,6 +17,10 @@ from .dim import DimSystem, DimEval
 from .vg import Node
 
 
+class DiffUnsupported(Exception):
+    pass
+
+
 class NaNForm:
     def key(self):
         return 'NAN'
@@ -86,6 +90,8 @@ class NFEval:
         self.zero = self.S.zero
         self.opaque_count = 0
         self.sums = {}            # atom key -> Sum (for flattening c*(a+b) inside sums)
+        self.funcs = {}           # atom key -> (function name, argument normal form) for atoms that can be differentiated
+        self.sample = None        # optional {atom key: number}: a point of the domain, used to orient sum atoms
 
     # -- constructors ----------------------------------------------------
     def num(self, q):
@@ -142,12 +148,76 @@ class NFEval:
             # factor out the rational content (coefficient of the first term in canonical
             # order) so that (2a+2b), (a+b) and (a/2+b/2) share one atom
             c = abs(x.terms[0].coef)      # positive content only: no sign is pulled out of a root
+            if self.sample is not None:
+                # a declared sample point of the domain: orient the sum so that the ATOM is positive there
+                # (its sign then travels in the rational coefficient, where products cancel it exactly)
+                v = self.numeric(x)
+                if v is not None and v < 0:
+                    c = -c
             if c != 1:
                 x = Sum([Mono(t.coef / c, t.f) for t in x.terms])
             k = x.key()
             self.sums[k] = x
             return Mono(c, {k: self.one})
         raise TypeError(x)
+
+    def numeric(self, x, depth=0):
+        """Value of a normal form at the declared sample point (floats; for signs only). Opaque atoms count as
+        positive quantities; None if it cannot be evaluated."""
+        if depth > 30 or x is NAN or isinstance(x, (PW, Struct)):
+            return None
+        try:
+            if isinstance(x, Sum):
+                tot = 0.0
+                for t in x.terms:
+                    v = self.numeric(t, depth + 1)
+                    if v is None:
+                        return None
+                    tot += v
+                return tot
+            val = float(x.coef)
+            for k, e in x.f.items():
+                if k in self.sums:
+                    base = self.numeric(self.sums[k], depth + 1)
+                elif k in self.sample:
+                    base = float(self.sample[k])
+                elif k in self.funcs and self.funcs[k][0] == 'exp':
+                    import math as _m
+                    av = self.numeric(self.funcs[k][1], depth + 1)
+                    base = _m.exp(av) if av is not None and abs(av) < 500 else 1.0
+                else:
+                    base = 1.0
+                if base is None:
+                    return None
+                ex = self._num_exp(e)
+                if ex is None:
+                    return None
+                if base < 0 and ex != int(ex):
+                    return None
+                if base == 0 and ex < 0:
+                    return None
+                val *= base ** ex
+            return val
+        except Exception:
+            return None
+
+    def _num_exp(self, e):
+        def poly(p):
+            tot = 0.0
+            for monom, coeff in p.terms():
+                t = float(Fraction(int(coeff.numerator), int(coeff.denominator)))
+                for g, k in zip(p.ring.gens, monom):
+                    if k:
+                        v = self.sample.get('param:%s' % g)
+                        if v is None:
+                            return None
+                        t *= float(v) ** k
+                tot += t
+            return tot
+        n, d = poly(e.numer), poly(e.denom)
+        if n is None or d is None or d == 0:
+            return None
+        return n / d
 
     def mul(self, a, b):
         def f(x, y):
@@ -227,8 +297,73 @@ class NFEval:
             return Mono(c2, fs)
         return self.lift2(f, a, Mono(Fraction(1)))
 
+    def exp_atom(self, x):
+        """exp(x) as an atom whose argument is remembered (for differentiation)."""
+        key = 'numpy.exp(%s)' % x.key()
+        self.funcs[key] = ('exp', x)
+        return self.atom(key)
+
     def is_zero(self, x):
         return isinstance(x, Mono) and x.coef == 0
+
+    # -- syntax-directed differentiation of a normal form ----------------------
+    def field_nf(self, e):
+        """A parameter-field element (an exponent) as a normal form over the atoms param:<name>."""
+        def poly(p):
+            out = self.num(0)
+            for monom, coeff in p.terms():
+                t = self.num(Fraction(int(coeff.numerator), int(coeff.denominator)))
+                for g, k in zip(p.ring.gens, monom):
+                    if k:
+                        t = self.mul(t, self.power(self.atom('param:%s' % g), self.S.F(int(k))))
+                out = self.add(out, t)
+            return out
+        n, d = poly(e.numer), poly(e.denom)
+        if isinstance(d, Mono) and not d.f and d.coef == 1:
+            return n
+        return self.mul(n, self.power(d, self.S.F(-1)))
+
+    def diff(self, x, key, depth=0):
+        """d x / d atom(key) for a normal form built from powers, products and sums.  An opaque atom
+        (a library call, a subscript ...) whose key mentions the variable makes the derivative undefined
+        here: DiffUnsupported is raised instead of treating it as a constant."""
+        if depth > 40:
+            raise DiffUnsupported('nesting too deep')
+        if x is NAN:
+            return NAN
+        if isinstance(x, PW):
+            return self.pw(x.ckey, self.diff(x.a, key, depth + 1), self.diff(x.b, key, depth + 1), x.cnode)
+        if isinstance(x, Struct):
+            raise DiffUnsupported('structured value')
+        if isinstance(x, Sum):
+            out = self.num(0)
+            for t in x.terms:
+                out = self.add(out, self.diff(t, key, depth + 1))
+            return out
+        # Mono: product rule over the factors
+        out = self.num(0)
+        for k, e in x.f.items():
+            if k == key:
+                dk = self.num(1)
+            elif k in self.sums:
+                dk = self.diff(self.sums[k], key, depth + 1)
+                if self.is_zero(dk):
+                    continue
+            elif k in self.funcs and self.funcs[k][0] == 'exp':
+                darg = self.diff(self.funcs[k][1], key, depth + 1)
+                if self.is_zero(darg):
+                    continue
+                dk = self.mul(self.atom(k), darg)        # d exp(a) = exp(a) da
+            elif key in k:
+                raise DiffUnsupported('opaque factor %s depends on %s' % (k[:60], key))
+            else:
+                continue
+            rest = Mono(x.coef, {kk: ee for kk, ee in x.f.items() if kk != k})
+            # e * atom**(e-1) * d(atom)
+            term = self.mul(self.mul(rest, self.field_nf(e)), Mono(Fraction(1), {k: e - self.one}) if e != self.one
+                            else Mono(Fraction(1)))
+            out = self.add(out, self.mul(term, dk))
+        return out
 
     def equal(self, a, b):
         """a == b as normal forms: their difference normalises to 0 on every piece (so that
@@ -430,6 +565,9 @@ class NFEval:
             ek = self.nf(exp_node)
             if a is NAN or ek is NAN:
                 return NAN
+            if isinstance(a, Mono) and not a.f and abs(float(a.coef) - 2.718281828459045) < 1e-15 \
+                    and not isinstance(ek, (PW, Struct)):
+                return self.exp_atom(ek)               # pow(e, X) is exp(X)
             return self.atom('pow(%s,%s)' % (a.key(), ek.key()))
         return self.power(a, e)
 
@@ -476,6 +614,8 @@ class NFEval:
             x = self.nf(args[0])
             if isinstance(x, Mono) and x.coef == 0:
                 return self.num(1)
+            if x is not NAN and not isinstance(x, (PW, Struct)):
+                return self.exp_atom(x)
         ks = []
         for a in args:
             x = self.nf(a)
